@@ -20,6 +20,10 @@ let c20_clause = function
 (* ---- value tokens: n | i<dec> | s<hex> | l[v,..] | m{key:v,..} ---- *)
 exception Unparsable of string
 
+(* display only: bool tokens (b0/b1) and opaque tokens (x<hex>: non-integral floats, times) of a
+   delivered row are read as integers / strings when the differing columns of two snapshots are listed *)
+let lenient = ref false
+
 let parse_val (s : string) : ival =
   let len = String.length s in
   let pos = ref 0 in
@@ -41,6 +45,15 @@ let parse_val (s : string) : ival =
           while (match peek () with '0' .. '9' | 'a' .. 'f' -> true | _ -> false) do incr pos done;
           IStr (bytes_of_hex (String.sub s st (!pos - st)))
         end
+    | 'b' when !lenient ->
+        incr pos;
+        let c = peek () in incr pos;
+        IInt (Win.z_of_int (if c = '1' then 1 else 0))
+    | 'x' when !lenient ->
+        incr pos;
+        let st = !pos in
+        while (match peek () with '0' .. '9' | 'a' .. 'f' -> true | _ -> false) do incr pos done;
+        IStr (bytes_of_hex (String.sub s st (!pos - st)))
     | 'l' ->
         pos := !pos + 2;
         let items = ref [] in
@@ -155,6 +168,29 @@ let changed_columns (before : string) (after : string) : string =
     if ch = [] then "-" else String.concat ";" ch
   with _ -> "?"
 
+(* a batch given to a sink = l[row,row,..] in slice order: which rows / columns differ between two snapshots *)
+let changed_batch (at : string) (later : string) : string =
+  lenient := true;
+  let r =
+    (try
+       match parse_val at, parse_val later with
+       | IList a, IList b ->
+           if List.length a <> List.length b then
+             Printf.sprintf "rows:%d=>%d" (List.length a) (List.length b)
+           else
+             let ds = List.concat (List.mapi (fun i (x, y) ->
+                 if x = y then [] else
+                 [Printf.sprintf "row%d{%s}" i (changed_columns (show_val x) (show_val y))]) (List.combine a b)) in
+             if ds = [] then "-" else String.concat "," ds
+       | _ -> "?"
+     with _ -> "?") in
+  lenient := false; r
+
+let contains (s : string) (sub : string) : bool =
+  let n = String.length s and m = String.length sub in
+  let rec go i = i + m <= n && (String.sub s i m = sub || go (i + 1)) in
+  go 0
+
 let handle (toks : string list) : string =
   match toks with
   | "D" :: j :: w :: st :: items :: "#" :: rest ->
@@ -220,10 +256,33 @@ let handle (toks : string list) : string =
        | Some cl -> Printf.sprintf "chk %s kind=%s mode=%s sql=[%s] changed_columns=%s before=%s after=%s" (c20_clause cl) kind mode
                       (sql_text sql) (changed_columns before after) before after
        | None -> if wr = "w" then "ok nt" else "ok")
-  | ["S"; kind; _sql; at; later] ->
+  | ["S"; kind; sql; at; later] ->
       (match iso_chk_same IClSinkRowChanged (bytes_of_string at) (bytes_of_string later) with
-       | Some cl -> Printf.sprintf "chk %s kind=%s" (c20_clause cl) kind
+       | Some cl -> Printf.sprintf "chk %s kind=%s sql=[%s] changed_columns=%s at_delivery=%s later=%s" (c20_clause cl) kind
+                      (sql_text sql) (lenient := true; let c = changed_columns at later in lenient := false; c) at later
        | None -> "ok")
+  | ["S"; kind; phase; sql; at; later] ->
+      (* sink-row-stability family: the batch (rows in slice order) while the sink owned it, against the
+         same slice and maps when the next batch arrived (phase next_batch) / after Stop (after_stop) *)
+      (match iso_chk_same IClSinkRowChanged (bytes_of_string at) (bytes_of_string later) with
+       | Some cl -> Printf.sprintf "chk %s kind=%s phase=%s sql=[%s] changed=%s at_delivery=%s later=%s" (c20_clause cl) kind phase
+                      (sql_text sql) (changed_batch at later) at later
+       | None ->
+           (* correspondence with Model/ResultDispatch.v: the pipeline removes the hidden columns BEFORE the
+              hand-over, so rd_strip is the identity on every row a sink is given *)
+           let leaked =
+             (lenient := true;
+              let r = (try (match parse_val at with
+                  | IList rows -> List.concat (List.map (function
+                      | IMap m -> List.filter_map (fun (k, _) -> if rd_hidden k then Some (string_of_bytes k) else None)
+                                    (if rd_strip m = m then [] else m)
+                      | _ -> []) rows)
+                  | _ -> []) with _ -> []) in
+              lenient := false; r) in
+           if leaked <> [] then
+             Printf.sprintf "diff dispatch kind=%s sql=[%s] model_delivers_no_hidden_column impl_delivered=%s at_delivery=%s"
+               kind (sql_text sql) (String.concat "," leaked) at
+           else if contains kind "hidden" && at <> "l[]" then "ok nt" else "ok")
   | ["A"; kind; mode; sql; before; after] ->
       (match iso_chk_same IClDeliveredAliasesCaller (bytes_of_string before) (bytes_of_string after) with
        | Some cl -> Printf.sprintf "chk %s kind=%s mode=%s sql=[%s] changed_columns=%s before=%s after_overwriting_delivered_rows=%s" (c20_clause cl) kind mode
